@@ -4,6 +4,7 @@ package checks
 
 import (
 	"bytes"
+	"reflect"
 	"context"
 	"fmt"
 	"sort"
@@ -91,6 +92,9 @@ type recorder struct {
 
 func (r *recorder) add(e cbEvent) {
 	e.At = vrt.NowNS()
+	if traceOn && r.id == 0 {
+		r.w.tracef("CALLBACK %s h=%d tx=%s state=%+v", e.Kind, e.Height, e.TxID.String()[:8], e.State)
+	}
 	e.NodeID = r.w.nodeGen
 	r.events = append(r.events, e)
 	if r.w.onCallback != nil {
@@ -211,6 +215,9 @@ type World struct {
 	dialsLeftToFail int
 	livelock   bool
 	stopElapsed int64
+	trace []string
+	Abandoned []string // the best chain before the last reorg
+	lastDump string
 	steps      int64
 }
 
@@ -400,6 +407,9 @@ func (w *World) pump() bool {
 				continue
 			}
 			pc.conn.Consume(len(buf) - rd.Len())
+			if traceOn {
+				w.tracef("node->%s %s", pc.addr, describeMsg(w, msg))
+			}
 			pc.recvLog = append(pc.recvLog, msg)
 			pc.recvAt = append(pc.recvAt, w.S.Now)
 			if w.onNodeMsg(pc, msg) {
@@ -411,6 +421,9 @@ func (w *World) pump() bool {
 }
 
 func (w *World) send(pc *peerConn, msg wire.Message) {
+	if traceOn {
+		w.tracef("%s->node %s", pc.addr, describeMsg(w, msg))
+	}
 	var buf bytes.Buffer
 	if _, err := wire.WriteMessageN(&buf, msg, wire.ProtocolVersion, netMagic); err != nil {
 		panic(fmt.Sprintf("harness: cannot encode %s: %v", msg.Command(), err))
@@ -604,6 +617,7 @@ func (w *World) Reorg(d, n int) bool {
 	if d >= len(w.Best) || d < 1 {
 		return false
 	}
+	w.Abandoned = append([]string(nil), w.Best...)
 	w.Best = append([]string(nil), w.Best[:len(w.Best)-d]...)
 	for i := 0; i < n; i++ {
 		b := w.Tree.mine(w.Best[len(w.Best)-1], nil, nil)
@@ -662,6 +676,17 @@ func (w *World) Converged() (bool, string) {
 func (w *World) Key(extra string) string {
 	now := time.Unix(vrt.BaseUnix, 0).Add(time.Duration(w.S.Now))
 	d := core.NewDumper(now)
+	d.Skip = func(t reflect.Type, f string) bool {
+		switch t.Name() {
+		case "VConn":
+			return f == "Written" || f == "ID" || f == "OnWrite"
+		case "RecStore":
+			return f != "Data"
+		case "Node":
+			return f == "handlers" || f == "messageHandlers" || f == "txFetcher" || f == "outputFetcher" || f == "store"
+		}
+		return false
+	}
 	d.Add("node", w.Node)
 	var sb strings.Builder
 	for _, k := range w.Store.Keys() {
@@ -688,7 +713,7 @@ func (w *World) Key(extra string) string {
 	for _, a := range names {
 		d.AddRaw("U", w.U[a].key())
 	}
-	d.AddRaw("best", strings.Join(w.Best, ","))
+	d.AddRaw("best", strings.Join(w.Best, ",")+"|"+strings.Join(w.Abandoned, ","))
 	var ts []string
 	for _, t := range w.S.Threads {
 		if t.Done {
@@ -714,6 +739,9 @@ func (w *World) Key(extra string) string {
 	d.AddRaw("peer-mempool", strings.Join(mp, ","))
 	d.AddRaw("run", fmt.Sprintf("%v/%v gen%d", w.runDone, w.runErr != nil, w.nodeGen))
 	d.AddRaw("extra", extra)
+	if traceOn {
+		w.lastDump = d.String()
+	}
 	return core.HashStr(d.String())
 }
 
@@ -778,3 +806,71 @@ func trimStack(s string) string {
 }
 
 func goEnv(label string, f func()) *vrt.Thread { return vrt.GoEnv(label, f) }
+
+var traceOn bool
+
+func (w *World) tracef(format string, a ...interface{}) {
+	w.trace = append(w.trace, fmt.Sprintf("[%7.3f] ", float64(w.S.Now)/1e9)+fmt.Sprintf(format, a...))
+}
+
+func fmtSscan(s string, p *int) { fmt.Sscan(s, p) }
+
+func describeMsg(w *World, msg wire.Message) string {
+	nm := func(h bitcoin.Hash32) string {
+		if n, ok := w.Tree.byHash[h]; ok {
+			return n
+		}
+		if n, ok := w.TxNames[h]; ok {
+			return "tx:" + n
+		}
+		return h.String()[:8]
+	}
+	switch m := msg.(type) {
+	case *wire.MsgHeaders:
+		var s []string
+		for _, h := range m.Headers {
+			s = append(s, nm(*h.BlockHash()))
+		}
+		return "headers[" + strings.Join(s, ",") + "]"
+	case *wire.MsgGetHeaders:
+		var s []string
+		for _, h := range m.BlockLocatorHashes {
+			s = append(s, nm(*h))
+		}
+		return "getheaders[" + strings.Join(s, ",") + "]"
+	case *wire.MsgGetData:
+		var s []string
+		for _, iv := range m.InvList {
+			s = append(s, nm(iv.Hash))
+		}
+		return "getdata[" + strings.Join(s, ",") + "]"
+	case *wire.MsgInv:
+		var s []string
+		for _, iv := range m.InvList {
+			s = append(s, nm(iv.Hash))
+		}
+		return "inv[" + strings.Join(s, ",") + "]"
+	case *wire.MsgBlock:
+		return "block " + nm(*m.Header.BlockHash())
+	case *wire.MsgTx:
+		return "tx " + nm(*m.TxHash())
+	}
+	return msg.Command()
+}
+
+// Back makes the peer return to the branch it abandoned in the last reorg, extended until it
+// is k blocks longer than the current best chain.
+func (w *World) Back(k int) bool {
+	if len(w.Abandoned) == 0 {
+		return false
+	}
+	cur := w.Best
+	target := len(cur) + k
+	w.Best = append([]string(nil), w.Abandoned...)
+	w.Abandoned = cur
+	for len(w.Best) < target {
+		b := w.Tree.mine(w.Best[len(w.Best)-1], nil, nil)
+		w.Best = append(w.Best, b.name)
+	}
+	return true
+}
